@@ -1,3 +1,4 @@
+import SieveModel.Spec.Vocabulary
 import SieveModel.Spec.WF
 import SieveModel.Model.Machine
 import SieveModel.Model.Show
@@ -179,5 +180,57 @@ theorem typed_argument_facts (TokP : Tok → Prop) (T : Table) (name : Bytes) (a
 /-- non-vacuity of the nesting discipline: `( [ ] )` is balanced, `( [ ) ]` is not -/
 example : Brackets.Balanced [.left_parenthesis, .left_bracket, .right_bracket, .right_parenthesis] := by unfold Brackets.Balanced; decide
 example : ¬ Brackets.Balanced [.left_parenthesis, .left_bracket, .right_parenthesis, .right_bracket] := by unfold Brackets.Balanced; decide
+
+/-! ## the supported vocabulary -/
+
+/-- **the table defines exactly the supported language**: every definition of the live table is a word of
+    the frozen vocabulary (hand-written from the RFCs, not derived from the code) in its role, and every
+    word has a definition — a definition added by accident (a helper class that happens to end in
+    `Command`) or lost breaks this obligation -/
+theorem live_table_speaks_exactly_the_supported_vocabulary :
+    Spec.SpeaksOnly Generated.builtinTable = true ∧ Spec.SpeaksAll Generated.builtinTable = true := by
+  constructor <;> decide +kernel
+
+/-- a name that resolves in a table speaking only the vocabulary is a word of it, in the role the table gives it -/
+theorem resolved_names_are_vocabulary_words (T : Table) (hT : Spec.SpeaksOnly T = true) (name : Bytes) (d : CmdDef)
+    (h : T.byName name = some d) : (name, d.kind) ∈ Spec.vocabulary := by
+  unfold Table.byName at h
+  have hm := List.mem_of_find?_eq_some h
+  have hn := List.find?_some h
+  have hname : d.name = name := by simpa using hn
+  have := List.all_eq_true.1 hT d hm
+  rw [← hname]
+  simpa using this
+
+/-- **unknown commands are rejected**: every top-level command of an accepted script — and, through
+    `role_facts_of_a_node`, every nested command and test — bears a name of the frozen vocabulary -/
+theorem accepted_scripts_use_only_the_supported_vocabulary (text : Bytes) (prev : PState) (r : List Node)
+    (h : Machine.parse Generated.builtinTable text prev = .accept r) :
+    ∀ n ∈ r, ∃ k, (n.name, k) ∈ Spec.vocabulary ∧ k ≠ .test := by
+  intro n hn
+  obtain ⟨_, hr⟩ := accepted_scripts_have_commands_and_tests_in_their_roles_live text prev r h
+  obtain ⟨⟨d, hd, hk⟩, _⟩ := hr n hn
+  exact ⟨d.kind, resolved_names_are_vocabulary_words _ live_table_speaks_exactly_the_supported_vocabulary.1 _ _ hd, hk⟩
+
+/-- the same for any node below: what `NodeR` promises about children and test arguments, in vocabulary terms -/
+theorem nested_nodes_use_only_the_supported_vocabulary (name : Bytes) (args extra : List Arg) (children : List Node)
+    (c : List Bytes) (h : Roles.NodeR Generated.builtinTable (.mk name args extra children c)) :
+    (∀ ch ∈ children, ∃ k, (ch.name, k) ∈ Spec.vocabulary ∧ k ≠ .test) ∧
+    (∀ k n, Arg.test k n ∈ args ++ extra → (n.name, Kind.test) ∈ Spec.vocabulary) ∧
+    (∀ k l, Arg.tests k l ∈ args ++ extra → ∀ n ∈ l, (n.name, Kind.test) ∈ Spec.vocabulary) := by
+  obtain ⟨_, _, _, hkids, _, hargs, hargl⟩ := role_facts_of_a_node _ _ _ _ _ _ h
+  have hv := live_table_speaks_exactly_the_supported_vocabulary.1
+  refine ⟨?_, ?_, ?_⟩
+  · intro ch hc
+    obtain ⟨⟨d, hd, hk⟩, _⟩ := hkids ch hc
+    exact ⟨d.kind, resolved_names_are_vocabulary_words _ hv _ _ hd, hk⟩
+  · intro k n hm
+    obtain ⟨⟨d, hd, hk⟩, _⟩ := hargs k n hm
+    have := resolved_names_are_vocabulary_words _ hv _ _ hd
+    rwa [hk] at this
+  · intro k l hm n hn
+    obtain ⟨⟨d, hd, hk⟩, _⟩ := hargl k l hm n hn
+    have := resolved_names_are_vocabulary_words _ hv _ _ hd
+    rwa [hk] at this
 
 end C01
